@@ -45,6 +45,7 @@ _LITS = ["lit:int", "lit:float", "lit:bool", "lit:none", "lit:str", "lit:list",
          "lit:list1"]
 _REQ = (["stub", "order", "exotic", "quant", "str_lattice", "str_hyp",
          "slot:pos", "slot:kw", "ws", "sentinel_text", "quant_built",
+         "mutate:trainable", "mutate:qdense", "mutate:assign_symmetric",
          "orig_ok"] + _LITS + ["str:" + c for c in O.CLASSES] +
         ["head:" + c for c in O.CLASSES])
 REQUIRED_LABELS = {"quick": _REQ, "thorough": _REQ}
@@ -386,12 +387,14 @@ _ev_memo = _Memo()
 _direct_memo = _Memo()
 
 
-def _observe_direct(cls, kw, probes, seed):
-  key = O.jkey([cls, kw, probes, seed])
+def _observe_direct(cls, kw, probes, seed, mutate=None):
+  key = O.jkey([cls, kw, probes, seed, mutate])
   if key not in _direct_memo:
     _direct_memo.bounded(6000)
     try:
-      _direct_memo[key] = O.observe(O.build(cls, kw), probes, seed)
+      _direct_memo[key] = O.observe(
+          O.build(cls, kw, {"mutate": mutate} if mutate else None), probes,
+          seed)
     finally:
       core.reset_globals()
   return _direct_memo[key]
@@ -400,7 +403,7 @@ def _observe_direct(cls, kw, probes, seed):
 class Ev(object):
   """One configuration printed and parsed back."""
 
-  def __init__(self, cls, kw, probes, seed):
+  def __init__(self, cls, kw, probes, seed, mutate=None):
     from qkeras import quantizers as Q  # pylint: disable=g-import-not-at-top
     self.cls, self.kw, self.probes, self.seed = cls, kw, probes, seed
     self.ctor, self.detail, self.text = True, {}, None
@@ -408,7 +411,7 @@ class Ev(object):
     self._obs = self._robs = None
     self.q2 = None
     try:
-      self.q = O.build(cls, kw)
+      self.q = O.build(cls, kw, {"mutate": mutate} if mutate else None)
     except Exception as e:  # pylint: disable=broad-except
       self.ctor = False
       self.detail["ctor"] = repr(e)[:200]
@@ -491,18 +494,20 @@ class Ev(object):
     return self._fid[route]
 
 
-def evaluate(cls, kw, probes, seed):
-  key = O.jkey([cls, kw, probes, seed])
+def evaluate(cls, kw, probes, seed, mutate=None):
+  key = O.jkey([cls, kw, probes, seed, mutate])
   if key not in _ev_memo:
     _ev_memo.bounded()
-    _ev_memo[key] = Ev(cls, kw, probes, seed)
+    _ev_memo[key] = Ev(cls, kw, probes, seed, mutate)
   return _ev_memo[key]
 
 
 def str_oracle(ctx, case, stats=None):
   cls, kw = case["cls"], O.nondefault(case["cls"], case["kw"])
   probes, seed = case["probes"], case["seed"]
-  ev = evaluate(cls, kw, probes, seed)
+  mut = case.get("mutate") or None
+  extra = {"mutation": O.mutation_name(mut)} if mut else {}
+  ev = evaluate(cls, kw, probes, seed, mut)
   if stats is not None:
     stats["ctor"] = ev.ctor
     if ev.ctor:
@@ -514,18 +519,22 @@ def str_oracle(ctx, case, stats=None):
     return out
   for sig, detail, m in O.analyse(
       cls, kw, ROUTE,
-      lambda k: evaluate(cls, k, probes, seed),
-      lambda k: _observe_direct(cls, k, probes, seed),
-      lambda sg: ctx.is_known("str_roundtrip", dict(sg, cls=cls)),
+      lambda k: evaluate(cls, k, probes, seed, mut),
+      lambda k: _observe_direct(cls, k, probes, seed, mut),
+      lambda sg: ctx.is_known("str_roundtrip", dict(sg, cls=cls, **extra)),
       with_scale=False,
       unexplained=lambda e: {"attrs_differ": e.attrs_differ()}):
     s2 = {"cls": cls}
     s2.update(sig)
+    s2.update(extra)
+    if mut:
+      detail = "after %s: %s" % (O.jkey(mut), detail)
     k = core.fkey("str_roundtrip", s2)
     if k not in seen:
       seen.add(k)
       out.append(("str_roundtrip", s2, detail,
-                  {"cls": cls, "kw": m, "probes": probes, "seed": seed}))
+                  dict({"cls": cls, "kw": m, "probes": probes, "seed": seed},
+                       **({"mutate": mut} if mut else {}))))
   return out
 
 
@@ -534,6 +543,8 @@ def _str_labels(case, st):
   labs = ["str:" + cls]
   labs += ["opt:%s.%s" % (cls, p) for p in sorted(case["kw"])]
   labs += [k for k in ("orig_ok", "printed", "reparsed") if st.get(k)]
+  if case.get("mutate"):
+    labs.append("mutate:" + O.mutation_name(case["mutate"]))
   return labs
 
 
@@ -548,11 +559,24 @@ def run(ctx):
   cfgs, info = O.lattice(ctx.tier)
   if ctx.idx == 0:
     ctx.info["lattice_size"] = len(cfgs)
-  for c in ctx.shard(cfgs):
+  lcases = [{"cls": c["cls"], "kw": c["kw"], "probes": PROBES, "seed": SEED}
+            for c in cfgs]
+  # str(q) after a post-construction mutation must re-parse to the live
+  # behaviour: the small configurations of every class, mutated
+  j = 0
+  for c in cfgs:
+    if len(c["kw"]) > 1:
+      continue
+    for m in O.mutations(c["cls"]):
+      j += 1
+      lcases.append({"cls": c["cls"], "kw": c["kw"], "probes": PROBES,
+                     "seed": SEED,
+                     "mutate": dict(m, **({"after_call": True} if j % 2 else
+                                          {}))})
+  for case in ctx.shard(lcases):
     if ctx.time_left() <= 0:
       ctx.labels["inconclusive_time"] += 1
       break
-    case = {"cls": c["cls"], "kw": c["kw"], "probes": PROBES, "seed": SEED}
     st = {}
     fails = str_oracle(ctx, case, st)
     ctx.tick(case, labels=["str_lattice"] + _str_labels(case, st),
@@ -580,9 +604,15 @@ def run(ctx):
   @st_.composite
   def scase(draw):
     c = draw(O.config_strategy())
-    return {"cls": c["cls"], "kw": c["kw"],
+    case = {"cls": c["cls"], "kw": c["kw"],
             "probes": [draw(O.probe_strategy()), "r2"],
             "seed": draw(st_.integers(0, 2 ** 16))}
+    if draw(st_.integers(0, 3)) == 0:
+      m = dict(draw(st_.sampled_from(O.mutations(c["cls"]))))
+      if draw(st_.booleans()):
+        m["after_call"] = True
+      case["mutate"] = m
+    return case
 
   def sorc(case):
     st = {}
